@@ -81,6 +81,8 @@ def main() -> None:
     preps = [p for p in preps if p["ok"]]
     lists = run_impl([("checks.c18:listing", p["text"]) for p in preps])
     comps = run_impl([("compile", p["text"]) for p in preps])
+    for c0 in comps:
+        c0.pop("sm", None)      # source maps are not looked at here (C08)
     splice_jobs = []
     for p, l, c in zip(preps, lists, comps):
         run.case(p["text"], nontrivial=len(p["literals"]) > 0)
